@@ -190,3 +190,8 @@ QEMU_BIT_HELPERS = {
 C11_KEYWORDS = set("""auto break case char const continue default do double else enum extern float for goto if inline int long
 register restrict return short signed sizeof static struct switch typedef union unsigned void volatile while _Alignas _Alignof
 _Atomic _Bool _Complex _Generic _Imaginary _Noreturn _Static_assert _Thread_local __func__""".split())
+
+
+# register alias names of the Hexagon plugin (rizin: HexRegAlias) made of capitals and digits; used as probe words only
+ALIAS_PROBES = ("SA0", "LC0", "SA1", "LC1", "USR", "PC", "UGP", "GP", "CS0", "CS1", "UPCYCLELO", "UPCYCLEHI", "FRAMELIMIT", "FRAMEKEY", "PKTCOUNTLO", "PKTCOUNTHI",
+                "UTIMERLO", "UTIMERHI", "M0", "M1", "LR", "SP", "FP")
